@@ -50,6 +50,7 @@ type Engine struct {
 	seenViol     map[string]bool
 	noPanicCheck bool
 	frozenInputs bool
+	fixedClock   bool // time.Now returns fixed instants one second apart (index option fixed_clock)
 	symbolicText bool // String()/FormatUint of symbolic values produce real symbolic text instead of an opaque string
 	target       *ssa.Package
 }
